@@ -819,6 +819,28 @@ func DeepReaches(a, b DeepInstr) bool {
 // helper's parameter stands for (followed up the whole path).
 func ArgForParam(path []ssa.Instruction, v ssa.Value) ssa.Value {
 	for i := len(path) - 1; i >= 0; i-- {
+		// a variable of the enclosing function read by a closure: what its cell holds
+		if ld, isLd := v.(*ssa.UnOp); isLd && ld.Op == token.MUL {
+			if fv, isFV := ld.X.(*ssa.FreeVar); isFV {
+				if mc, isMC := CallOf(path[i]).Value.(*ssa.MakeClosure); isMC {
+					if fn, isFn := mc.Fn.(*ssa.Function); isFn {
+						for j, q := range fn.FreeVars {
+							if q == fv && j < len(mc.Bindings) {
+								if a, isA := mc.Bindings[j].(*ssa.Alloc); isA {
+									if val, ok := cellValue(a); ok {
+										v = val
+									}
+								}
+							}
+						}
+					}
+				}
+				if _, still := v.(*ssa.UnOp); still {
+					return v
+				}
+				continue
+			}
+		}
 		prm, ok := v.(*ssa.Parameter)
 		if !ok {
 			return v
@@ -1016,4 +1038,15 @@ func strictLess(cond ssa.Value) (x, y ssa.Value, succ int, ok bool) {
 		succ = 1 - succ
 	}
 	return x, y, succ, true
+}
+
+// methodArgs: receiver and arguments of a method call, also when the call goes through a
+// method value (put := buf.Write; put(x)): the bound receiver comes first.
+func methodArgs(cc *ssa.CallCommon) []ssa.Value {
+	if mc, ok := cc.Value.(*ssa.MakeClosure); ok {
+		if fn, ok := mc.Fn.(*ssa.Function); ok && strings.HasSuffix(fn.Name(), "$bound") && len(mc.Bindings) == 1 {
+			return append([]ssa.Value{mc.Bindings[0]}, cc.Args...)
+		}
+	}
+	return cc.Args
 }
